@@ -14,28 +14,29 @@ Definition strict_weak_order {F : Type} (flt : F -> F -> bool) : Prop :=
 Section Main.
 Variable F : Type.
 Variable flt : F -> F -> bool.
+Variable ops : stat_ops.
 Hypothesis Hswo : strict_weak_order flt.
 
-Lemma main_layer_bound : forall e (s : state F), env_ok e -> @reachable F flt e s ->
+Lemma main_layer_bound : forall e (s : state F), env_ok e -> @reachable F flt ops e s ->
   forall l ly, nth_error (pop s) l = Some ly -> (1 <= length (members ly) <= allowed ly)%nat.
 Proof. intros. eapply layer_bound; eauto. Qed.
 
-Lemma main_std_de_size_constant : forall e (s : state F), env_ok e -> is_alps e = false -> @reachable F flt e s ->
+Lemma main_std_de_size_constant : forall e (s : state F), env_ok e -> is_alps e = false -> @reachable F flt ops e s ->
   length (pop s) = 1%nat /\ pop_size (pop s) = e_individuals e.
 Proof. intros. eapply std_de_size_constant; eauto. Qed.
 
-Lemma main_last_imp_le_gen : forall e (s : state F), env_ok e -> @reachable F flt e s -> last_imp (sm s) <= gen (sm s).
+Lemma main_last_imp_le_gen : forall e (s : state F), env_ok e -> @reachable F flt ops e s -> last_imp (sm s) <= gen (sm s).
 Proof. intros. eapply last_imp_le_gen; eauto. Qed.
 
-Lemma main_best_is_score_of_best : forall e (s : state F), env_ok e -> @reachable F flt e s ->
+Lemma main_best_is_score_of_best : forall e (s : state F), env_ok e -> @reachable F flt ops e s ->
   best_fit (sm s) = fit (best_sol (sm s)).
 Proof. intros. eapply best_is_score_of_best; eauto. Qed.
 
-Lemma main_best_monotone : forall e evs (s s' : state F), @no_shake F evs = true -> run flt e s evs = Some s' ->
+Lemma main_best_monotone : forall e evs (s s' : state F), @no_shake F evs = true -> run flt ops e s evs = Some s' ->
   flt (best_fit (sm s')) (best_fit (sm s)) = false.
 Proof. destruct Hswo as [Ha Hn]. intros. eapply best_monotone; eauto. Qed.
 
-Lemma main_inv_b : forall e (s : state F), env_ok e -> @reachable F flt e s -> inv_b flt e s = true.
+Lemma main_inv_b : forall e (s : state F), env_ok e -> @reachable F flt ops e s -> inv_b flt e s = true.
 Proof. destruct Hswo as [Ha Hn]. intros. eapply inv_b_sound; eauto. eapply reachable_inv; eauto. Qed.
 
 Lemma main_tournament_parents : forall e (p : population F) tgt rs cs ly,
@@ -52,8 +53,8 @@ Lemma main_members_exist : forall e (p : population F) sd cs,
 Proof. intros. eapply members_exist; eauto. Qed.
 
 Lemma main_elitism_keeps_max : forall e evs (s s' : state F), is_alps e = false -> e_elitism e = true ->
-  @no_shake F evs = true -> run flt e s evs = Some s' ->
+  @no_shake F evs = true -> run flt ops e s evs = Some s' ->
   forall x, In x (all_members (pop s)) -> exists y, In y (all_members (pop s')) /\ flt (fit y) (fit x) = false.
-Proof. destruct Hswo as [Ha Hn]. intros e evs s s' H1 H2 H3 H4. exact (elitism_keeps_max F flt Ha Hn e evs s s' H1 H2 H3 H4). Qed.
+Proof. destruct Hswo as [Ha Hn]. intros e evs s s' H1 H2 H3 H4. exact (elitism_keeps_max F flt ops Ha Hn e evs s s' H1 H2 H3 H4). Qed.
 
 End Main.
